@@ -16,3 +16,26 @@ PROPS["C08"] = {
     "suites": [("reader", 800, 20000), ("walk", 600, 12000), ("hist", 300, 4000)],
     "assumptions": ["followers are passive: read/walk never inspect a follower's state, so the event list is a function of the input alone (checked by feeding four followers the same input)"],
 }
+
+PROPS["C13"] = {
+    "deps": ["Proofs/PoolReach.vo"],
+    "props": "Props/C13.v",
+    "suites": [("pool", 600, 20000), ("walk", 600, 12000)],
+    "assumptions": ["std HashMap and BinaryHeap behave as a finite map and a priority queue (which order the heap extracts is fixed by the pool correspondence, not assumed)",
+                    "Rnum::try_from agrees with `n < 100` (theorem C18_rnum_try_from_exact)"],
+}
+
+PROPS["C16"] = {
+    "deps": ["Proofs/Valence.vo"],
+    "props": "Props/C16.v",
+    "probes": [{"file": "Probes/Valence.v"}],
+    "suites": [("kind", 600, 20000), ("atom", 300, 6000)],
+    "assumptions": ["debracket is dumped over 127 symbols x 11 hydrogen counts x all 256 sums with the other fields absent; its independence of the other fields is probed by the dump program and by the kind correspondence"],
+}
+PROPS["C17"] = {
+    "deps": ["Proofs/Valence.vo"],
+    "props": "Props/C17.v",
+    "probes": [{"file": "Probes/Valence.v"}],
+    "suites": [("atom", 600, 20000)],
+    "assumptions": ["the accumulator of Atom::subvalence is usize; sums beyond usize::MAX are not modelled"],
+}
